@@ -69,6 +69,12 @@ pub fn ref_cases(tier: Tier) -> Vec<CaseSpec> {
     for c in gen3::f1_nest() {
         v.push(CaseSpec::Full(Box::new(c)));
     }
+    for c in gen3::f6_ptr() {
+        v.push(CaseSpec::Full(Box::new(c)));
+    }
+    for c in gen3::f2_carry() {
+        v.push(CaseSpec::Full(Box::new(c)));
+    }
     for (c, _names, _mask) in gen2::f3(tier, false) {
         v.push(CaseSpec::Full(Box::new(c)));
     }
@@ -116,6 +122,12 @@ pub fn exec_cases(tier: Tier) -> Vec<CaseSpec> {
         v.push(CaseSpec::Full(Box::new(c)));
     }
     for c in gen3::f1_nest() {
+        v.push(CaseSpec::Full(Box::new(c)));
+    }
+    for c in gen3::f6_ptr() {
+        v.push(CaseSpec::Full(Box::new(c)));
+    }
+    for c in gen3::f2_carry() {
         v.push(CaseSpec::Full(Box::new(c)));
     }
     for (c, _names, _mask) in gen2::f3(tier, false) {
